@@ -211,6 +211,16 @@ def main(argv):
         ctx.count("composed-hash-model-calls", ncalls)
         for b in bad[:5]:
             ctx.disagreement("composed Lean model HashClient∘Client differs from the real HashClient", b, theorem="C01_hash_own_bytes_only")
+    # composed model HashClient ∘ PooledClient ∘ Client (Pymc/Model/HashPooledCall.lean): random histories of single-key calls with per-call
+    # scripts on the real HashClient(use_pooling=True), compared call by call (result, server, PooledClient invoked, inner client, socket used,
+    # bookkeeping state, and per registered pool: idle clients with socket / unread bytes, sockets closed in order, checked-out count)
+    if ctx.lean.build_ok:
+        import hashpooledcall_diff
+        ncalls, bad = hashpooledcall_diff.differential(3000 if ctx.thorough else 400, rng, ctx.driver.batch)
+        ctx.count("composed-hashpooled-model-calls", ncalls)
+        for b in bad[:5]:
+            ctx.disagreement("composed Lean model HashClient∘PooledClient∘Client differs from the real HashClient(use_pooling=True)", b,
+                             theorem="C01_hashpooled_own_bytes_only")
     ctx.assumptions = ["the server emits exactly one reply unit per reply-expecting command (framing grammar of DESIGN.md C01); content inside a unit is adversarial",
                        "late delivery after a timeout is modelled as bytes that stay in the pipe of that connection", "BaseException faults are C10"]
     ctx.finish()
